@@ -89,6 +89,25 @@ def rule_P(ctx):
     same(ctx, "P3", "interleave_lists: result pops the front of the list each sentinel names", il, ex.result, sp.result, "interleaved list")
     same_events(ctx, "P3", "interleave_lists: sentinel vector shuffled by the passed generator", il, ex.calls(".shuffle"), sp.calls(".shuffle"), "rng.shuffle(sentinels)")
     same_events(ctx, "P3", "interleave_lists: pops", il, ex.calls(".pop"), sp.calls(".pop"), "pop(0) calls")
+    # how often each sentinel is repeated: the counting domains of the shuffled vector (range(n) per input list)
+    from ..termflow import AList, Valuation, key_atom, poly_from_key, show, _is_polykey
+
+    def counts(e):
+        evs = e.calls(".shuffle")
+        if len(evs) != 1 or not evs[0].args or not isinstance(evs[0].args[0], AList):
+            return None
+        out = []
+        for d in evs[0].args[0].doms:
+            a = key_atom(d) if isinstance(d, tuple) else None
+            if a is not None and a[0] == "call" and a[1] == "range" and a[2]:
+                out.append(a[2][-1] if len(a[2]) <= 2 else None)
+        return out
+
+    gc, wc = counts(ex), counts(sp)
+    if gc is not None and wc is not None and None not in gc + wc:
+        v = Valuation(3, salt="s0")
+        img = lambda ks: sorted(repr(v.image(k)) for k in ks)
+        ctx.check(img(gc) == img(wc), "P3", "interleave_lists: sentinel i occurs len(lists[i]) times", il.where(), "the sentinel of a list is repeated %s times; it must occur once per element of that list (%s)" % ([show(poly_from_key(k)) if _is_polykey(k) else str(k) for k in gc], [show(poly_from_key(k)) if _is_polykey(k) else str(k) for k in wc]), construct=il.qualname, stmt="sentinel multiplicity")
 
     pdf = prog.fn("RootPermutationDistribution.log_pdf")
     ex = extract(prog, pdf, no_inline=NOIN)
